@@ -408,7 +408,7 @@ func (e *Engine) appendModel(f *frame, st *State, cc *ssa.CallCommon, args []Val
 		// copied prefix: an uninterpreted "window" function gives fresh[i] = old[off+i] for i<len
 		var srcInner *smt.Term
 		if tIsString {
-			srcInner = c.App("str.bytes", as, t.Terms[0])
+			srcInner = c.App("gs.bytes", as, t.Terms[0])
 		} else {
 			srcInner = c.Select(arr, t.Terms[0])
 		}
@@ -458,7 +458,7 @@ func (e *Engine) copyModel(f *frame, st *State, cc *ssa.CallCommon, args []Val, 
 		var srcInner *smt.Term
 		srcOff := c.BVLit64(0, 64)
 		if srcIsString {
-			srcInner = c.App("str.bytes", as, src.Terms[0])
+			srcInner = c.App("gs.bytes", as, src.Terms[0])
 		} else {
 			srcInner = c.Select(arr, src.Terms[0])
 			srcOff = src.Terms[1]
